@@ -519,6 +519,9 @@ loop 2:
                 SNode { index: (2 * block->Some_0.index) as u64, hash: crypto::h_leaf(block->Some_0.value@), length: block->Some_0.value@.len() as u64 }, q.nodes@, 0)
     decreases q.length
 before `root = Some(current_root);`#2:
+    // C04: nothing unauthenticated reaches the changeset - the root recomputed from the seek section (queue.extra) has been
+    // consumed as a sibling on the block / hash path, so every node pushed above is bound to the root handed back
+    assert(q.extra is None);
     proof {
         if block is Some && no_seek_nodes(seek) {
             lemma_fold_up_same(leaf_it((2 * block->Some_0.index) as u64),
